@@ -36,7 +36,7 @@ def run_one(ops, raw=False):
             os.close(r)
             dn = os.open(os.devnull, os.O_WRONLY)
             os.dup2(dn, 2)
-            signal.alarm(30)
+            signal.alarm(300)   # wall clock; generous, the box may be heavily loaded
             childmod.RAW = raw
             out = os.fdopen(w, "w")
             for op in ops:
